@@ -19,7 +19,7 @@ CLAIMED = {
  "C08": ("DESIGN.md §4 C08", "(a) Invariant preservation: after every accepted update the stored bytes verify again under the log's key (so nothing stored can fail its own next verification). (b) From any state whose stored checkpoint belongs to the honest log, an honest step (sizes up to the bound, proof produced by the real tlog.ProveTree, real VerifyConsistency inlined) is accepted. One listed known finding (stored size 0).", "tree sizes bounded (8 quick / 32 thorough); signers assumed not to fail", TECH),
  "C09": ("DESIGN.md §4 C09", "The (bytes, error) result of the real Update is compared, for all 64-bit sizes, with an executable reference of the tlog-witness rule order written in the harness; the proof verdict is tied to the real verifier by H-VC.", "reference model is hand-written from the spec; carve-outs exactly as in the property text", TECH + "; differential against a reference model"),
  "C10": ("DESIGN.md §4 C10", "One request through the real ServeHTTP, handleUpdate, witnessAdapter, Witness.Update and store (a composition the test suite never runs), with handler and witness built from one symbolic configuration through the repository's own AsLogMap / config.NewLog; status, content type and body are compared with the protocol table for every verdict class, from an arbitrary stored state; 200 is shown to occur only when the submitted checkpoint was cosigned and stored, with the witness's signature line as body.", "parseBody replaced by its contract (C11); limiter answer arbitrary; TLS/HTTP2 leg not encoded; signature bytes are note.Sign's contract", TECH),
- "C11": ("DESIGN.md §4 C11", "The real parseBody, Proof.Marshal/Unmarshal and the feedbastion body writer are executed over SMT-LIB strings (cvc5): (i) a body written from an arbitrary decimal old size < 2^64, k non-empty hashes and arbitrary checkpoint bytes parses back to exactly those; (ii) for an arbitrary body (<= 4000 bytes) success implies the first line is exactly 'old <decimal fitting 64 bits>', every proof line is accepted by the base64 decoder, the blank separator exists and the checkpoint is the rest; (iii) Unmarshal(Marshal(p)) = p for k = 0..K; (iv) the writer's output parses back.", "k <= 8 quick / 64 thorough for the round trips, <= 2 / 4 proof lines for the arbitrary-body direction; base64 is an uninterpreted codec (dec(enc x) = x, enc x free of CR/LF); ReadLine's 4096-byte buffer case is outside the bound", TECH + "; theory of strings"),
+ "C11": ("DESIGN.md §4 C11", "The real parseBody, Proof.Marshal/Unmarshal and the feedbastion body writer are executed over SMT-LIB strings (cvc5): (i) a body written from an arbitrary decimal old size < 2^64, k non-empty hashes and arbitrary checkpoint bytes parses back to exactly those; (ii) for an arbitrary body (<= 4000 bytes) success implies the first line is exactly 'old <decimal fitting 64 bits>', every proof line is accepted by the base64 decoder, the blank separator exists and the checkpoint is the rest; (iii) Unmarshal(Marshal(p)) = p for k = 0..K; (iv) the writer's output parses back.", "k <= 8 quick / 32 thorough hashes of symbolic length 1..64 for the round trips, every pair of concrete hash lengths 1..64 for two proof lines, <= 2 / 3 proof lines for the arbitrary-body direction; base64 is an uninterpreted codec (dec(enc x) = x, enc x free of CR/LF); ReadLine's 4096-byte buffer case is outside the bound", TECH + "; theory of strings"),
  "C12": ("DESIGN.md §4 C12", "Frame condition: an update naming log a leaves every other slot bit-identical on every path.", "identity derivations (config/bastion/distributor) checked in H-ID", TECH),
  "C13": ("DESIGN.md §4 C13", "The real FeedOnce / submitToWitness (including the retried closure) run against a recording witness stub with arbitrary answers, an arbitrary log and the backoff.Retry contract; every Update the feeder issues is shown to name the configured log, carry the verified bytes, use the size of the latest checkpoint reported in the same attempt as old size, and carry the proof fetched in that attempt for exactly (latest -> submitted); never when the witness is ahead; success returns the witness's bytes; a context end stops with an error.", "attempts <= 2 quick / 3 thorough; back-off timing not modelled", TECH),
  "C15": ("DESIGN.md §4 C15", "The real DistributeOnce / distributeForLog over up to 3 logs with arbitrary witness answers and arbitrary distributor answers (status, transport error, redirect): a PUT happens iff the witness's bytes verify under the log's key and origin and carry the witness signature; method, exact URL and exact body are proved; all logs are attempted; the overall error and the success counter are compared with an independent account of the answers.", "url.Parse(x).String() modelled as x; PathEscape uninterpreted; <= 2 / 3 logs", TECH + "; theory of strings for URLs"),
